@@ -228,6 +228,8 @@ func (a *Action) GRL() string {
 		return "Changed(" + strconv.Quote(a.Name) + ");"
 	case "set":
 		return "F." + a.Name + "(" + bare(a.E, a.Bare) + ");"
+	case "repoint":
+		return "F.P = F.Spare;"
 	}
 	panic("bad action " + a.Kind)
 }
@@ -247,6 +249,8 @@ func (a *Action) JS() interface{} {
 		return J{"k": "forget", "name": a.Name}
 	case "set":
 		return J{"k": "setter", "fn": a.Name, "e": a.E.JS()}
+	case "repoint":
+		return J{"k": "repoint"}
 	}
 	panic("bad action " + a.Kind)
 }
